@@ -32,6 +32,12 @@ import (
 //	mreq <host> <pauth>                                  => acc:<id> | 407 | 404 | closed
 //	mw   <user> <pass> <auth>                            => next | 401    HTTPAuthMiddleware
 //	pl   <user> <pass> <pauth>                           => true | false  plugin http_proxy Auth
+//	plc  <user> <pass> (<method> <pauth>)+               => <r1>,<r2>,…   plugin http_proxy Handle: ONE work connection
+//	       carrying the requests in turn (CONNECT-like methods target the protected TCP service, the others
+//	       fetch an URL of it); r = ch (407, connection kept) | rc (407, Connection: close) | tun (200, tunnel) |
+//	       get (200, fetched) | st<code> | eof, with "+" appended iff the protected service saw that request
+//
+// `req`'s <path> is the path of the request target exactly as written on the wire (percent-encoded).
 //
 // auth tokens: "-" absent | "b<k>:<hexuser>:<hexpass>" well-formed (k = scheme casing) | "m<k>" malformed
 type httpAuthState struct {
@@ -42,6 +48,13 @@ type httpAuthState struct {
 	mux    *tcpmux.HTTPConnectTCPMuxer
 	muxAcc chan int
 	closer []func()
+
+	// http_proxy plugin: the service behind the plugin and the listener used to make work connections
+	plTarget *http.Server
+	plAddr   string
+	plSeen   sync.Map // request path -> struct{}
+	plLn     net.Listener
+	plSeq    int
 }
 
 var has *httpAuthState
@@ -86,7 +99,106 @@ func httpAuthReset() {
 	st.mux, _ = tcpmux.NewHTTPConnectTCPMuxer(mln, false, 5*time.Second)
 	st.muxAcc = make(chan int, 16)
 	st.closer = append(st.closer, func() { mln.Close() })
+
+	tln, err := net.Listen("tcp", "127.0.0.1:0")
+	if err != nil {
+		panic(err)
+	}
+	st.plAddr = tln.Addr().String()
+	st.plTarget = &http.Server{ReadHeaderTimeout: 10 * time.Second, Handler: http.HandlerFunc(func(w http.ResponseWriter, r *http.Request) {
+		st.plSeen.Store(r.URL.Path, struct{}{})
+		w.Header().Set("X-Target", "1")
+		w.WriteHeader(200)
+	})}
+	go func() { _ = st.plTarget.Serve(tln) }()
+	st.closer = append(st.closer, func() { st.plTarget.Close() })
+	st.plLn, err = net.Listen("tcp", "127.0.0.1:0")
+	if err != nil {
+		panic(err)
+	}
+	st.closer = append(st.closer, func() { st.plLn.Close() })
 	has = st
+}
+
+// httpAuthPlugConn hands ONE work connection to the real plugin's Handle (as frpc's proxy does) and plays
+// the requests on it in turn.
+func (st *httpAuthState) httpAuthPlugConn(user, pass string, reqs []string) string {
+	p, err := plugin.NewHTTPProxyPlugin(plugin.PluginContext{Name: "verif"}, &v1.HTTPProxyPluginOptions{HTTPUser: user, HTTPPassword: pass})
+	if err != nil {
+		return "err"
+	}
+	defer p.Close()
+	uc, err := net.DialTimeout("tcp", st.plLn.Addr().String(), 2*time.Second)
+	if err != nil {
+		return "dialerr"
+	}
+	defer uc.Close()
+	work, err := st.plLn.Accept()
+	if err != nil {
+		return "accepterr"
+	}
+	defer work.Close()
+	go p.Handle(context.Background(), &plugin.ConnectionInfo{Conn: work, UnderlyingConn: work})
+	_ = uc.SetDeadline(time.Now().Add(8 * time.Second))
+	br := bufio.NewReader(uc)
+	st.plSeq++
+	var out []string
+	for i := 0; i+1 < len(reqs); i += 2 {
+		method := unhx(reqs[i])
+		marker := fmt.Sprintf("/r%d-%d", st.plSeq, i/2)
+		mark := func(r string) string {
+			if _, ok := st.plSeen.Load(marker); ok {
+				return r + "+"
+			}
+			return r
+		}
+		var sb strings.Builder
+		if method == "CONNECT" {
+			fmt.Fprintf(&sb, "CONNECT %s HTTP/1.1\r\nHost: %s\r\n", st.plAddr, st.plAddr)
+		} else {
+			fmt.Fprintf(&sb, "%s http://%s%s HTTP/1.1\r\nHost: %s\r\n", method, st.plAddr, marker, st.plAddr)
+		}
+		if h, ok := authHeader(reqs[i+1]); ok {
+			fmt.Fprintf(&sb, "Proxy-Authorization: %s\r\n", h)
+		}
+		sb.WriteString("\r\n")
+		if _, err := uc.Write([]byte(sb.String())); err != nil {
+			out = append(out, mark("eof"))
+			break
+		}
+		resp, err := http.ReadResponse(br, &http.Request{Method: "CONNECT"}) // never a body to wait for
+		if err != nil {
+			out = append(out, mark("eof"))
+			break
+		}
+		if resp.StatusCode == 200 && resp.Header.Get("X-Target") == "" {
+			// a tunnel: what we send now goes to whatever the plugin dialled
+			fmt.Fprintf(uc, "GET %s HTTP/1.1\r\nHost: %s\r\nConnection: close\r\n\r\n", marker, st.plAddr)
+			r2, err := http.ReadResponse(br, &http.Request{Method: "HEAD"})
+			if err != nil || r2.Header.Get("X-Target") == "" {
+				out = append(out, mark("tun?"))
+			} else {
+				out = append(out, mark("tun"))
+			}
+			break
+		}
+		var r string
+		switch {
+		case resp.StatusCode == 200:
+			r = "get"
+		case resp.StatusCode == 407 && resp.Close:
+			r = "rc"
+		case resp.StatusCode == 407:
+			r = "ch"
+		default:
+			r = "st" + strconv.Itoa(resp.StatusCode)
+		}
+		out = append(out, mark(r))
+		if resp.Close {
+			break
+		}
+	}
+	return strings.Join(out, ",")
 }
 
 func authHeader(tok string) (string, bool) {
@@ -282,6 +394,8 @@ func httpAuthExec(tok []string) string {
 			r.Header.Set("Proxy-Authorization", hd)
 		}
 		return strconv.FormatBool(p.(*plugin.HTTPProxy).Auth(r))
+	case "plc":
+		return st.httpAuthPlugConn(unhx(tok[1]), unhx(tok[2]), tok[3:])
 	}
 	return "bad-op"
 }
@@ -326,15 +440,56 @@ func concreteHost(rng *rand.Rand, h string) string {
 	return h
 }
 
+// locations a route can be registered with (default "", the root, nested and sibling prefixes)
+var haLocs = []string{"", "/", "/a", "/ab", "/a/b", "/b", "/a/"}
+
+// path segments: plain names that are / extend / miss the registered locations, dot segments, the empty
+// segment, and percent-encoded spellings of letters, dots and the separator
+var haSegs = []string{"a", "ab", "b", "x", "..", ".", "", "..", ".", "", "%2e%2e", "%2E%2e", "%2e", ".%2E", "%61", "%62", "a%2fb", "%2f", "a;b", "a."}
+
+// haGenPath: the path of a request target as written on the wire
+func haGenPath(rng *rand.Rand) string {
+	switch k := rng.Intn(20); {
+	case k < 7: // ordinary paths
+		return pick(rng, []string{"/", "/a", "/ab/x", "/b", "/a/b", "/a/b/c", "/x"})
+	case k < 19: // composed of 1..4 segments of every kind, optional trailing slash
+		n := 1 + rng.Intn(4)
+		p := ""
+		for i := 0; i < n; i++ {
+			p += "/" + pick(rng, haSegs)
+		}
+		if rng.Intn(5) == 0 {
+			p += "/"
+		}
+		return p
+	default: // malformed escapes (the server must answer 400 itself)
+		return "/" + pick(rng, haSegs) + pick(rng, []string{"%", "%2", "%zz", "%g0", "%2%65", "/%"})
+	}
+}
+
+// credentials for a request of a plugin connection: exact / absent / malformed / some other pair
+func haPlugAuthTok(rng *rand.Rand, u, p string) string {
+	switch k := rng.Intn(20); {
+	case k < 7:
+		return "b" + strconv.Itoa(rng.Intn(3)) + ":" + hx(u) + ":" + hx(p)
+	case k < 13:
+		return "-"
+	case k < 15:
+		return "m" + strconv.Itoa(rng.Intn(5))
+	default:
+		return genAuthTok(rng, haUsers, haPass)
+	}
+}
+
 func httpAuthGen(rng *rand.Rand, n int, emit func(string)) {
 	emit("reset")
 	id := 0
 	for i := 0; i < n; i++ {
-		k := rng.Intn(100)
+		k := rng.Intn(200)
 		switch {
 		case k < 2:
 			emit("reset")
-		case k < 22:
+		case k < 44:
 			id++
 			ru := pick(rng, haUsers)
 			u, p := pick(rng, haUsers), pick(rng, haPass)
@@ -344,13 +499,13 @@ func httpAuthGen(rng *rand.Rand, n int, emit func(string)) {
 			if rng.Intn(4) == 0 {
 				u, p = "", ""
 			}
-			emit(fmt.Sprintf("reg %s %s %s %s %s %d", hx(haMixCase(rng, pick(rng, haHosts))), hx(pick(rng, []string{"", "/", "/a", "/ab"})), hx(ru), hx(u), hx(p), id))
-		case k < 26:
-			emit(fmt.Sprintf("unreg %s %s %s", hx(pick(rng, haHosts)), hx(pick(rng, []string{"", "/", "/a", "/ab"})), hx(pick(rng, haUsers))))
-		case k < 66:
+			emit(fmt.Sprintf("reg %s %s %s %s %s %d", hx(haMixCase(rng, pick(rng, haHosts))), hx(pick(rng, haLocs)), hx(ru), hx(u), hx(p), id))
+		case k < 52:
+			emit(fmt.Sprintf("unreg %s %s %s", hx(pick(rng, haHosts)), hx(pick(rng, haLocs)), hx(pick(rng, haUsers))))
+		case k < 132:
 			form := pick(rng, []string{"o", "o", "a", "a", "c"})
 			host := haMixCase(rng, concreteHost(rng, pick(rng, haHosts)))
-			path := pick(rng, []string{"/", "/a", "/ab/x", "/b", "/a/b"})
+			path := haGenPath(rng)
 			if form == "c" {
 				host += pick(rng, []string{":443", ":80"})
 				path = ""
@@ -358,16 +513,31 @@ func httpAuthGen(rng *rand.Rand, n int, emit func(string)) {
 				host += pick(rng, []string{":80", ".", ".:8080"})
 			}
 			emit(fmt.Sprintf("req %s %s %s %s %s", form, hx(host), hx(path), genAuthTok(rng, haUsers, haPass), genAuthTok(rng, haUsers, haPass)))
-		case k < 74:
+		case k < 148:
 			id++
 			u, p := pick(rng, haUsers), pick(rng, haPass)
 			emit(fmt.Sprintf("mreg %s %s %s %s %d", hx(haMixCase(rng, pick(rng, haHosts))), hx(pick(rng, haUsers)), hx(u), hx(p), id))
-		case k < 90:
+		case k < 178:
 			emit(fmt.Sprintf("mreq %s %s", hx(haMixCase(rng, concreteHost(rng, pick(rng, haHosts)))), genAuthTok(rng, haUsers, haPass)))
-		case k < 99:
+		case k < 193:
 			emit(fmt.Sprintf("mw %s %s %s", hx(pick(rng, haUsers)), hx(pick(rng, haPass)), genAuthTok(rng, haUsers, haPass)))
-		default:
+		case k < 195:
 			emit(fmt.Sprintf("pl %s %s %s", hx(pick(rng, haUsers)), hx(pick(rng, haPass)), genAuthTok(rng, haUsers, haPass)))
+		default:
+			// one work connection of the http_proxy plugin: 1..4 requests, CONNECT anywhere in the sequence
+			u, p := pick(rng, haUsers), pick(rng, haPass)
+			if rng.Intn(10) < 7 {
+				u, p = pick(rng, haUsers[1:]), pick(rng, haPass[1:])
+			}
+			line := fmt.Sprintf("plc %s %s", hx(u), hx(p))
+			for r, nr := 0, 1+rng.Intn(4); r < nr; r++ {
+				m := pick(rng, []string{"CONNECT", "CONNECT", "CONNECT", "CONNECT", "GET", "GET", "GET", "OPTIONS", "DELETE", "connect", "Connect"})
+				if r == 0 && nr > 1 && rng.Intn(3) != 0 { // mostly let the connection reach the embedded http.Server
+					m = pick(rng, []string{"GET", "GET", "OPTIONS", "DELETE"})
+				}
+				line += " " + hx(m) + " " + haPlugAuthTok(rng, u, p)
+			}
+			emit(line)
 		}
 	}
 }
